@@ -228,6 +228,19 @@ def streams(rng, tier):
         for mv in VERS:
             d = {a: pick_value(rng, a, 0.9), "metadata_version": mv, b: pick_value(rng, b, 0.9), "version": "1", "name": "n"}
             protos.append(("sweep-pairs", "m.from_raw", ["T"] + enc_dict(d), d, []))
+    # 5b. every pool value of every validated field, alone under the newest metadata version (and one older), eager and lazy
+    for f, (good, bad) in list(P.items()) + [("version", (["1.0", " 1.0RC1 ", "1!2.3.post4.dev5+loc.1"], ["", "x", "{0}", "1.0{", "1.0.*", "1..0"]))]:
+        for v in good + bad:
+            for mv in ("2.4", "1.2"):
+                d = {"metadata_version": mv, "name": "n", "version": "1"}; d[f] = v
+                for val in ("T", "F"):
+                    protos.append(("pool-values", "m.from_raw", [val] + enc_dict(d), d, ["R" + f, "Rname", "R" + f]))
+    for f, (good, bad) in ITEMS.items():
+        for it in good + bad:
+            for lst in ([it], [good[0], it], [it, good[1]]):
+                d = {"metadata_version": "2.4", "name": "n", "version": "1", f: lst}
+                for val in ("T", "F"):
+                    protos.append(("pool-values", "m.from_raw", [val] + enc_dict(d), d, ["R" + f, "R" + f]))
     cases = attach_oracles(protos)
 
     # 6. from_email: documents -> parse_email (implementation) -> (raw, unparsed) tokens -> model of from_email
